@@ -40,9 +40,9 @@ func (s *scope) pushForRange(loopVar string) (lVar, lLimit string) {
 	s.n++
 	n := strconv.Itoa(s.n)
 	s.stack = append(s.stack, map[string]string{
-		loopVar:   loopVar + n,
-		"__limit": loopVar + "Limit" + n,
-		"__index": loopVar + n,
+		loopVar:             loopVar + n,
+		loopVar + "__limit": loopVar + "Limit" + n,
+		loopVar + "__index": loopVar + n,
 	})
 	return loopVar + n,
 		loopVar + "Limit" + n
@@ -52,9 +52,9 @@ func (s *scope) pushForEach(loopVar string) (lVar, lList, lLen, lIndex string) {
 	s.n++
 	n := strconv.Itoa(s.n)
 	s.stack = append(s.stack, map[string]string{
-		loopVar:   loopVar + n,
-		"__limit": loopVar + "Limit" + n,
-		"__index": loopVar + "Index" + n,
+		loopVar:             loopVar + n,
+		loopVar + "__limit": loopVar + "Limit" + n,
+		loopVar + "__index": loopVar + "Index" + n,
 	})
 	return loopVar + n,
 		loopVar + "List" + n,
@@ -62,12 +62,14 @@ func (s *scope) pushForEach(loopVar string) (lVar, lList, lLen, lIndex string) {
 		loopVar + "Index" + n
 }
 
-// looplimit returns the JS variable name for the innermost loop limit.
-func (s *scope) looplimit() string {
-	return s.lookup("__limit")
+// looplimit returns the JS variable name for the limit of the loop over the
+// given loop variable.
+func (s *scope) looplimit(loopVar string) string {
+	return s.lookup(loopVar + "__limit")
 }
 
-// looplimit returns the JS variable name for the innermost loop index.
-func (s *scope) loopindex() string {
-	return s.lookup("__index")
+// loopindex returns the JS variable name for the index of the loop over the
+// given loop variable.
+func (s *scope) loopindex(loopVar string) string {
+	return s.lookup(loopVar + "__index")
 }
